@@ -906,7 +906,7 @@ class Rewriter:
                         pieces.append(('pad3', arg))
                         k = e + 1
                         continue
-                    elif re.match(r'^:0[4-9]$', inner) or re.match(r'^:\.[0-9]+$', inner) or inner == ':?':
+                    elif re.match(r'^:0[4-9]$', inner) or re.match(r'^:\.[0-9]+$', inner) or inner == ':?' or re.match(r'^:[0-9A-Za-z][<>^][0-9]+$', inner):
                         # zero padding to another width / fixed decimals: the rendering is left uninterpreted
                         if ai >= len(args):
                             ok = False; break
@@ -940,7 +940,7 @@ class Rewriter:
                     parts.append('&(%s).vx_string()' % v)
             if not parts:
                 parts = ['""']
-            if len(parts) > 8:
+            if len(parts) > 10:
                 continue
             rep = 'vx::cat%d(%s)' % (len(parts), ', '.join(parts))
             code = code[:mm.start()] + rep + code[cp + 1:]
@@ -1204,6 +1204,16 @@ class Rewriter:
             code = code[:mm_fl.start()] + '{ let lines__ = vx::vec_take(%s.vx_lines(), %s); for %s in lines__.iter() ' % (e, n_, v) + code[ob:cb + 1] + ' }' + code[cb + 1:]
             k_ft += 1
         self.note('for x in s.lines().take(n)->for x in vx::vec_take(s.vx_lines(), n).iter()', k_ft)
+        # `S.chars().take(N).collect::<String>()` -> vx::str_take_chars(&S, N)
+        k_tc = 0
+        while True:
+            m_tc = mask(code)
+            mm_tc = re.search(r'(?<![A-Za-z0-9_.])([A-Za-z_][A-Za-z0-9_.]*?)\s*\.\s*chars\s*\(\s*\)\s*\.\s*take\s*\(\s*([0-9]+)\s*\)\s*\.\s*collect\s*::\s*<\s*String\s*>\s*\(\s*\)', m_tc)
+            if not mm_tc:
+                break
+            code = code[:mm_tc.start()] + 'vx::str_take_chars(&%s, %s)' % (mm_tc.group(1), mm_tc.group(2)) + code[mm_tc.end():]
+            k_tc += 1
+        self.note('s.chars().take(n).collect::<String>()->vx::str_take_chars(&s, n)', k_tc)
         # `S.get(A..B)` on a str (literal bounds) -> vx::str_get(S, A, B)
         k_sg = 0
         while True:
